@@ -3,6 +3,7 @@
 package cl
 
 import (
+	"math"
 	"math/big"
 
 	"github.com/ohler55/slip"
@@ -44,6 +45,11 @@ func (f *Oneplus) Call(s *slip.Scope, args slip.List, depth int) (result slip.Ob
 	slip.CheckArgCount(s, depth, f, args, 1, 1)
 	switch ta := args[0].(type) {
 	case slip.Fixnum:
+		if ta == math.MaxInt64 {
+			// The successor is not a fixnum.
+			var z big.Int
+			return (*slip.Bignum)(z.Add(big.NewInt(int64(ta)), big.NewInt(1)))
+		}
 		result = ta + 1
 	case slip.Octet:
 		result = ta + 1
